@@ -185,8 +185,8 @@ def cmp_bindings(e, E):
     if E.verdict in ('failed', 'raises') or E.early_exit:
         # the reference stopped at the same statement; bindings still comparable
         pass
-    g = {k: v for k, v in got.items() if k.startswith('sim_')}
-    x = {k: v for k, v in exp.items() if k.startswith('sim_')}
+    g = dict(got)
+    x = dict(exp)
     if g != x:
         diff = sorted(set(g.items()) ^ set(x.items()))[:4]
         return ['final bindings differ from the reference program: %s' % diff]
